@@ -153,11 +153,50 @@ def step_facts(step: Step) -> list[Fact]:
     return []
 
 
-def path_facts(path: Path, upto: int | None = None) -> list[Fact]:
+_IDENT = None
+
+
+def _idents(text: str) -> set[str]:
+    global _IDENT
+    if _IDENT is None:
+        import re
+
+        _IDENT = re.compile(r"(?<![\w.])[A-Za-z_]\w*")
+    return set(_IDENT.findall(text))
+
+
+def _mentions(f: Fact, names: set[str]) -> bool:
+    if f.kind == "OR":
+        return any(_mentions(x, names) for alt in f.parts for x in alt)
+    return any(_idents(a) & names for a in f.args)
+
+
+def path_facts(path: Path, upto: int | None = None, versioned: bool | str = True) -> list[Fact]:
+    """Facts established along the path.
+
+    versioned=True   a fact is dropped as soon as a name it mentions is re-bound (facts about *current* values);
+    versioned="entry+current"  additionally keeps facts whose names had not been re-bound before the test
+                     (facts about the values the function was *entered* with) - the right notion for input guards;
+    versioned=False  every fact ever tested.
+    """
+    from .paths import _binds
+
     out: list[Fact] = []
+    entry: list[Fact] = []
+    rebound: set[str] = set()
     steps = path.steps if upto is None else path.steps[:upto]
     for s in steps:
-        out.extend(step_facts(s))
+        bound = _binds(s)
+        if versioned and bound:
+            out = [f for f in out if not _mentions(f, bound)]
+        new = step_facts(s)
+        out.extend(new)
+        if versioned == "entry+current":
+            entry.extend(f for f in new if not _mentions(f, rebound))
+        rebound |= bound
+    if versioned == "entry+current":
+        seen = {id(f) for f in out}
+        out = out + [f for f in entry if id(f) not in seen]
     return out
 
 
